@@ -88,6 +88,7 @@ def gen(rng, tier):
             'want_ranks': rng.random() < 0.5, 'want_expvel': rng.random() < 0.3,
             'tracers': rng.choice([['LRG'], ['LRG'], ['LRG', 'ELG'], ['ELG', 'QSO']]), 'force_mt': rng.random() < 0.2,
             'n_chunks': n_chunks, 'chunk': chunk,
+            'failed_call_before': rng.random() < 0.2,
             'id_base': rng.choice([0, 0, 0, 2 ** 53 + 1, 2 ** 62 + 12345]), 'id_dtype': rng.choice(['i8', 'i8', 'u8']),
             'veldev_1d': rng.random() < 0.15, 'poison': rng.choice(['A', 'B']), 'extra_rank_cols': rng.random() < 0.7}
 
@@ -221,6 +222,29 @@ def run(case):
     with C.scratch() as root:
         sim_params, hod_params, header, truth_parts = write_files(case, root)
         rt.Alloc.set(case.get('poison', 'A'))
+        if case.get('failed_call_before'):
+            # history: the same staging was first asked for a redshift that has no files and failed
+            try:
+                AbacusHOD(dict(sim_params, z_mock=9.875), hod_params, chunk=case['chunk'], n_chunks=case['n_chunks'])
+            except Exception:
+                pass
+            # ... and for another simulation (other ids) whose last particle file is missing: that one dies midway,
+            # after the earlier slabs were read
+            if sum(len(s_['ids']) for s_ in case['slabs']) < 5000 and len(case['slabs']) >= 2:
+                import glob
+                other = copy.deepcopy(case)
+                for s_ in other['slabs']:
+                    s_['ids'] = [i + 5000 for i in s_['ids']]
+                    s_['parts'] = [[i + 5000, k] for i, k in s_['parts']]
+                sp2, hp2, _, _ = write_files(other, os.path.join(root, 'previous-run'))
+                victims = sorted(glob.glob(os.path.join(sp2['subsample_dir'], '*', '*', 'particles_xcom_%d_*' % (len(case['slabs']) - 1))))
+                for v in victims:
+                    os.unlink(v)
+                try:
+                    AbacusHOD(sp2, hp2, chunk=case['chunk'], n_chunks=case['n_chunks'])
+                except Exception:
+                    pass
+            bump(out['faults'], 'failed-call-before')
         try:
             with C.environment({'poison': case.get('poison', 'A'), 'shuffle_glob': True, 'glob_seed': 3}, out['faults']):
                 obj = AbacusHOD(sim_params, hod_params, chunk=case['chunk'], n_chunks=case['n_chunks'])
